@@ -177,6 +177,22 @@ theorem C03_code_compaction_order (needLevel : Bool) (lnT : Nat) (ln1 : List Nat
   · rw [LevelTie.compactLN_table]; rfl
   · rw [LevelTie.compactLN_table]; rfl
 
+
+/-- … and the same for `levelManager.compactL0` (translated on every run): level 1 is read and merged before level 0, the
+    output is named while the inputs are listed, it is written before any input file is removed, a failed write removes nothing -/
+theorem C03_code_compaction_order_L0 (needLevel : Bool) (l0 l1 : List Nat) (newIdx : Nat) :
+    GenLevel.compactL0 needLevel l0 l1 newIdx false [] =
+      some (l1 ++ l0,
+        (if needLevel then [("new level", 0)] else []) ++ (l1.map fun e => ("fetch L1", e)) ++ (l0.map fun e => ("fetch L0", e)) ++
+        [("MergeVersions", l1.length + l0.length), ("discardStaleEntries", 0), ("filter.Build", 0), ("table.Build", 0),
+         ("name := maxLevelIdx(L1)+1", newIdx), ("PushBack L1", newIdx)] ++
+        (l0.map fun e => ("Remove handle L0", e)) ++ (l1.map fun e => ("Remove handle L1", e)) ++ [("writeTable L1", newIdx)] ++
+        (l0.map fun e => ("os.Remove L0", e)) ++ (l1.map fun e => ("os.Remove L1", e))) ∧
+    GenLevel.compactL0 needLevel l0 l1 newIdx true [] = none := by
+  constructor
+  · rw [LevelTie.compactL0_table]; rfl
+  · rw [LevelTie.compactL0_table]; rfl
+
 #print axioms C03_every_crash_point
 #print axioms C03_open_recovers
 #print axioms C03_acked_visible
@@ -187,4 +203,5 @@ theorem C03_code_compaction_order (needLevel : Bool) (lnT : Nat) (ln1 : List Nat
 #print axioms C03_code_flush_then_delete
 #print axioms C03_code_recovery_merge
 #print axioms C03_code_compaction_order
+#print axioms C03_code_compaction_order_L0
 end Props
